@@ -577,6 +577,12 @@ class BuiltinMixin(object):
     def bi_type(self, e, st):
         res = []
         for st1, (a,) in self._args1(e, st):
+            static = {INT: "int", BOOL: "bool", STR: "str", NONE: "NoneType"}.get(a.ty)
+            if static is None and isinstance(a.ty, (List, Set, Map, Tup)):
+                static = {List: "list", Set: "set", Map: "dict", Tup: "tuple"}[type(a.ty)]
+            if static is not None:
+                res.append((st1, V(MODULE, None, (static,))))      # compares with the builtin type names
+                continue
             res.append((st1, core.ufun("type_of", [core.tpack(a) if isinstance(a.ty, Tup) else a], U("Type"))))
         return res
 
